@@ -136,6 +136,8 @@ package hook
 //@ ghost nProcess int
 //@ ghost lastExitErr error
 //@ ghost nOutputsRead int
+// the environment inherited from the operator process, as last read by os.Environ
+//@ ghost lastEnviron []string
 
 //@ trusted func (*Hook).prepareBindingContextJsonFile
 //@   modifies fsExists, ctxFileContent
@@ -169,9 +171,14 @@ package hook
 //@   modifies hook.nOutputsRead
 //@   ghostset hook.nOutputsRead := hook.nOutputsRead + 1
 //@ trusted func Environ
-//@   modifies nothing
+//@   modifies hook.lastEnviron
+//@   ghostset hook.lastEnviron := result
 //@ package github.com/flant/shell-operator/pkg/executor
+// C12: the variables of this execution come after everything inherited from the operator's own
+// environment (the last assignment of a name wins in os/exec), and either all six or none.
 //@ trusted func NewExecutor
+//@   requires [inherited-environment-first] len(envs) >= len(hook.lastEnviron) && forall(j, 0, len(hook.lastEnviron), envs[j] == hook.lastEnviron[j])
+//@   requires [six-execution-variables] len(envs) == len(hook.lastEnviron) || len(envs) == len(hook.lastEnviron) + 6
 //@   modifies nothing
 //@   ensures result != nil
 //@ trusted func (*Executor).WithLogProxyHookJSON
@@ -215,7 +222,7 @@ package hook
 //@   requires [rate-limit-token] lastWaitHook == h && lastWaitErr == nil && h != nil
 //@   requires h.HookController != nil && h.Config != nil && (h.Config.Version == "v0" || h.Config.Version == "v1") && nProcess >= 0 && !fsExists[""]
 //@   modifies bctx.lastConvIn, bctx.lastConvVersion, bctx.lastConvOut, controller.lastRefreshIn, controller.lastRefreshOut, controller.snapCount, controller.snapOf
-//@   modifies nRun, ranContexts, lastWaitHook, lastHookResult, lastHookErr, fsExists, ctxFileContent, nProcess, lastExitErr, nOutputsRead
+//@   modifies nRun, ranContexts, lastWaitHook, lastHookResult, lastHookErr, fsExists, ctxFileContent, nProcess, lastExitErr, nOutputsRead, lastEnviron
 //@   ghostset nRun := nRun + 1
 //@   ghostset ranContexts := context
 //@   ghostset lastWaitHook := nil
